@@ -8,7 +8,7 @@ from harness import refdev
 
 RULE = ("fault enumeration on the real CommHandler over the harness reference device (scaled clock, watchdogs): at EVERY "
         "request of the connect handshake (stop request, common-info, each channel-info; chmax 1..3) the device falls silent, "
-        "answers with the wrong frame, an undecodable frame, garbage, or leaves a residue of 1..3 header bytes - once or from "
+        "answers with the wrong frame, an undecodable frame, garbage, or leaves a residue of 1..3 header bytes, a complete header, a header plus one byte, or noise ending in a header - once or from "
         "then on; plus random answer sequences; compared with the Coq model: outcome class, number of requests sent, nothing "
         "left running after a failure; then disconnect() under a watchdog and a check that no library thread survives; "
         "non-trivial = distinct (chmax, fault position, fault kind, persistence)")
@@ -69,7 +69,10 @@ def run_connect(chmax, answers, raw_as_silent, scale=0.01):
 def cases(run):
     rng = common.Rng(run.seed)
     out = []
-    residues = [b"", b"\x55", b"\x55\xff", b"\x55\xff\xff", b"\x00\x01\x02\x03\x04\x05\x06\x07", b"\x55\xff\xff\x55\xfe"]
+    residues = [b"", b"\x55", b"\x55\xff", b"\x55\xff\xff", b"\x00\x01\x02\x03\x04\x05\x06\x07", b"\x55\xff\xff\x55\xfe",
+                # a COMPLETE header (valid start byte, length 16, id 1) and then nothing; with one more byte;
+                # noise that ends in such a header candidate
+                b"\x55\x10\x00\x01", b"\x55\x10\x00\x01\xaa", b"\x00\x01\x55\x10\x00\x01"]
     chmaxes = (1, 2, 3) if run.thorough else (2,)
     for chmax in chmaxes:
         nreq = 2 + chmax
